@@ -34,6 +34,9 @@ pub struct Scn {
     pub shared: bool,
     pub ops: Vec<Op>,
     pub knobs: SchedKnobs,
+    /// the wrapped service takes only this many calls at a time (readiness waits for a slot)
+    #[serde(default)]
+    pub inner_capacity: Option<u32>,
 }
 
 pub fn gen(rng: &mut Rng) -> Scn {
@@ -68,7 +71,8 @@ pub fn gen(rng: &mut Rng) -> Scn {
     }
     let mut knobs = SchedKnobs::gen(rng, false, 100);
     knobs.yield_every = 0;
-    Scn { policy: rng.below(3) as u8, max_size, ttl_ms, shared: rng.chance(1, 3), ops, knobs }
+    let inner_capacity = if conc && rng.chance(1, 3) { Some(rng.range(1, 2) as u32) } else { None };
+    Scn { policy: rng.below(3) as u8, max_size, ttl_ms, shared: rng.chance(1, 3), ops, knobs, inner_capacity }
 }
 
 pub fn valid(s: &Scn) -> bool {
@@ -209,6 +213,10 @@ pub fn run(s: &Scn, ctx: &mut RunCtx) -> RunOutput {
     let scn = s.clone();
     let setup = move || {
         world::with(|w| {
+            if let Some(c) = scn.inner_capacity {
+                w.script.capacity.insert(0, c as i64);
+                w.script.capacity.insert(1, c as i64);
+            }
             for (i, o) in scn.ops.iter().enumerate() {
                 for svc in 0..2u8 {
                     w.script.by_req.insert(
